@@ -320,9 +320,18 @@ def grep_forbidden():
                 p = os.path.join(d, f)
                 txt = open(p).read()
                 txt = strip_coq_comments(txt)
+                depth = 0
                 for i, line in enumerate(txt.splitlines(), 1):
                     if FORBIDDEN.search(line):
                         hits.append("%s:%d: %s" % (os.path.relpath(p, VERIF), i, line.strip()))
+                    # a Variable / Hypothesis / Context outside a Section declares an axiom
+                    ls = line.strip()
+                    if re.match(r"^Section\s+\w+", ls):
+                        depth += 1
+                    elif re.match(r"^End\s+\w+\s*\.", ls) and depth > 0:
+                        depth -= 1
+                    elif depth == 0 and re.match(r"^(Local\s+|Global\s+)?(Variable|Variables|Hypothesis|Hypotheses|Context)\b", ls):
+                        hits.append("%s:%d: outside a Section: %s" % (os.path.relpath(p, VERIF), i, ls))
     for p in (os.path.join(COQDIR, "_CoqProject"),):
         for i, line in enumerate(open(p), 1):
             if FORBIDDEN.search(line):
@@ -602,7 +611,7 @@ def proof_step(ctx, prop_dir, allow, extra_targets=()):
     ok, log = coq_make(tgt)
     ctx.checker_cmds.append("make -C coq " + " ".join(tgt))
     hits = grep_forbidden()
-    ctx.obligation("no Admitted/admit/Axiom/Parameter/unset-checks in coq/theories", not hits, "; ".join(hits[:5]))
+    ctx.obligation("no Admitted/admit/Axiom/Parameter/unset-checks, no Variable/Hypothesis outside a Section in coq/theories", not hits, "; ".join(hits[:5]))
     thms = theorems_in(os.path.join(COQDIR, "theories", prop_dir, "Properties.v"))
     if not ok:
         for t in thms:
